@@ -1,6 +1,6 @@
 """Draw injection for the generator correspondence (C18): while a `Tape` is active, torch's random sources
 used by rl4co's generators (`torch.rand`, `torch.rand_like`, `torch.randint`, `Tensor.uniform_`,
-`torch.multinomial`) are served with values chosen by the harness' own PRNG and logged, so that the Lean
+`torch.multinomial`, `torch.normal`, `Tensor.normal_`) are served with values chosen by the harness' own PRNG and logged, so that the Lean
 model of the generator's post-processing can be evaluated on exactly the same raw draws.
 
 Uniform draws are dyadic `k / 2^bits` (few bits → every float32 product the generators form with them is
@@ -33,6 +33,9 @@ class Tape:
         self.log: List[dict] = []
         self._saved = {}
         self.int_plan: Optional[dict] = None  # optional overrides: index of randint call → callable(lo, hi, n) → values
+        # standard-normal draws (`torch.normal`, `Tensor.normal_`): steered into the tails — a fraction `tail` of the draws is
+        # ±6, ±12 or ±40 standard deviations, the rest a coarse grid in [−3, 3]
+        self.tail = 0.2
 
     # ---- value sources ---------------------------------------------------------------------------
     def _unif_ints(self, n: int, last: int = 1) -> List[int]:
@@ -119,7 +122,30 @@ class Tape:
         self.log.append({"kind": "randint", "shape": shape, "v": vals, "lo": low, "hi": high})
         return torch.tensor(vals, dtype=kwargs.get("dtype", torch.int64)).reshape(shape)
 
-    def _fake_multinomial(self, probs, num_samples, replacement=False, **kwargs):
+    def _z(self, shape):
+        n = int(math.prod(shape)) if len(shape) else 1
+        zs = []
+        for _ in range(n):
+            if self.rng.random() < self.tail:
+                zs.append(self.rng.choice([-40.0, -12.0, -6.0, 6.0, 12.0, 40.0]))
+            else:
+                zs.append(self.rng.randrange(-12, 13) / 4.0)
+        self.log.append({"kind": "normal", "shape": tuple(shape), "z": zs})
+        return torch.tensor(zs, dtype=torch.float32).reshape(shape)
+
+    def _fake_normal(self, mean, std=1.0, *args, **kwargs):
+        if not torch.is_tensor(mean) and not torch.is_tensor(std):
+            size = kwargs.get("size", args[0] if args else ())
+            return float(mean) + float(std) * self._z(tuple(size))
+        shape = torch.broadcast_shapes(tuple(mean.shape) if torch.is_tensor(mean) else (), tuple(std.shape) if torch.is_tensor(std) else ())
+        return mean + std * self._z(tuple(shape))
+
+    def _fake_normal_(self, t, mean=0.0, std=1.0, **kwargs):
+        t.copy_(mean + std * self._z(tuple(t.shape)))
+        return t
+
+    def _fake_multinomial(self, input=None, num_samples=1, replacement=False, **kwargs):
+        probs = input
         rows = probs.reshape(-1, probs.shape[-1])
         out = []
         for r in rows.tolist():
@@ -132,7 +158,10 @@ class Tape:
 
     def __enter__(self):
         self._saved = {"rand": torch.rand, "rand_like": torch.rand_like, "randint": torch.randint,
-                       "uniform_": torch.Tensor.uniform_, "multinomial": torch.multinomial}
+                       "uniform_": torch.Tensor.uniform_, "multinomial": torch.multinomial,
+                       "normal": torch.normal, "normal_": torch.Tensor.normal_}
+        torch.normal = self._fake_normal
+        torch.Tensor.normal_ = lambda t, mean=0.0, std=1.0, **kw: self._fake_normal_(t, mean, std, **kw)
         torch.rand = self._fake_rand
         torch.rand_like = self._fake_rand_like
         torch.randint = self._fake_randint
@@ -146,6 +175,8 @@ class Tape:
         torch.randint = self._saved["randint"]
         torch.Tensor.uniform_ = self._saved["uniform_"]
         torch.multinomial = self._saved["multinomial"]
+        torch.normal = self._saved["normal"]
+        torch.Tensor.normal_ = self._saved["normal_"]
         return False
 
     # ---- reading the log -------------------------------------------------------------------------
